@@ -32,6 +32,7 @@ type Harness struct {
 	InitPkgs   []string // packages to initialise instead
 	Sched      bool
 	Preempt    int
+	FreeYields bool // voluntary yields (verifrt.Yield, Gosched) do not count against the preemption bound
 	Covers     []string
 	MaxPaths   int
 	Lim        Limits
